@@ -25,6 +25,7 @@ func init() {
 	ruleText["R18.2"] = "Exported() is tested on scope objects and on interface methods; TypeParams() guards a skip inside the *types.Func and *types.TypeName cases only; Val{..., true} (bind by address) is built only in the *types.Var case; before the type switch no skip depends on the object's type"
 	ruleText["R18.3"] = "the model template declares IValue first, a field W{{$m.Name}} func{{$m.Param}} {{$m.Result}} and a method {{$m.Name}}{{$m.Param}} {{$m.Result}} whose body is {{$m.Ret}} W.W{{$m.Name}}{{$m.Arg}} for each method; value entries are keyed by the map key and use &...Elem() exactly under .Addr"
 	ruleText["R18.4"] = "every key of extract.restricted names a declaration of package stdlib"
+	ruleText["R18.6"] = "in the loop of genContent that builds a wrapper method's argument list, the assignment appending \"...\" to the last argument is guarded by Variadic() and no other write of that element is reachable after it within the iteration"
 	ruleText["R18.5"] = "fixConst prints String and Int constants with ExactString(); the qualifier passed to types.TypeString marks as imported every package whose path differs from the extracted one, with no other condition"
 }
 
@@ -228,6 +229,7 @@ func runC18(c *Config, r *Report) {
 		r.Errorf("%v", err)
 	}
 	c18R5(prog, pk, fs, r)
+	c18R6(prog, fs, r)
 }
 
 func progCfg(p *Prog) *Config { return p.Cfg }
@@ -300,6 +302,91 @@ func c18Template(prog *Prog, pk interface{}, r *Report) {
 	}
 }
 
+// c18R6: the forwarded argument of a variadic interface method keeps its "..." suffix: in
+// the loop building the wrapper's argument list, the statement appending "..." is guarded by
+// Variadic() and no later write of the same element is reachable within the iteration.
+func c18R6(prog *Prog, fs map[string]*FuncInfo, r *Report) {
+	info := prog.Pkgs[0].TypesInfo
+	gc := fs["Extractor.genContent"]
+	n := 0
+	var walk func(body *ast.BlockStmt)
+	elemOf := func(e ast.Expr) types.Object {
+		if ix, ok := unparen(e).(*ast.IndexExpr); ok {
+			if id, ok := unparen(ix.X).(*ast.Ident); ok {
+				return info.ObjectOf(id)
+			}
+		}
+		return nil
+	}
+	walk = func(body *ast.BlockStmt) {
+		ast.Inspect(body, func(m ast.Node) bool {
+			var lb *ast.BlockStmt
+			switch x := m.(type) {
+			case *ast.ForStmt:
+				lb = x.Body
+			case *ast.RangeStmt:
+				lb = x.Body
+			}
+			if lb == nil {
+				return true
+			}
+			// "..." appends directly in this loop body (not in nested loops)
+			var marks []*ast.AssignStmt
+			ast.Inspect(lb, func(k ast.Node) bool {
+				switch y := k.(type) {
+				case *ast.ForStmt, *ast.RangeStmt, *ast.FuncLit:
+					return k == ast.Node(lb)
+				case *ast.AssignStmt:
+					if y.Tok == token.ADD_ASSIGN && len(y.Rhs) == 1 && elemOf(y.Lhs[0]) != nil {
+						if tv, ok := info.Types[y.Rhs[0]]; ok && tv.Value != nil && tv.Value.ExactString() == `"..."` {
+							marks = append(marks, y)
+						}
+					}
+				}
+				return true
+			})
+			for _, mk := range marks {
+				n++
+				slice := elemOf(mk.Lhs[0])
+				guarded := false
+				for _, p := range enclosingPath(lb, mk) {
+					if ifs, ok := p.(*ast.IfStmt); ok {
+						ast.Inspect(ifs.Cond, func(k ast.Node) bool {
+							if c, ok := k.(*ast.CallExpr); ok && isCallTo(info, c, "go/types.Signature.Variadic") {
+								guarded = true
+							}
+							return true
+						})
+					}
+				}
+				r.Check(guarded, "R18.6", fmt.Sprintf("genContent/variadic-mark#%d/guard", n), prog.pos(mk.Pos()), "the ... suffix is appended under Variadic()",
+					"the \"...\" suffix is appended to a forwarded argument without a Variadic() test")
+				fg := buildFlow(lb, info)
+				var later []string
+				for _, nd := range fg.regionFrom(mk, func(ast.Node) bool { return false }) {
+					ownNodes(nd, func(k ast.Node) bool {
+						if as, ok := k.(*ast.AssignStmt); ok && as != mk {
+							for _, l := range as.Lhs {
+								if elemOf(l) == slice {
+									later = append(later, prog.pos(as.Pos()))
+								}
+							}
+						}
+						return true
+					})
+				}
+				r.Check(len(later) == 0, "R18.6", fmt.Sprintf("genContent/variadic-mark#%d/last-write", n), prog.pos(mk.Pos()), "the ... suffix is the last write of the forwarded argument in the iteration",
+					"after \"...\" is appended to the forwarded variadic argument the same element of "+slice.Name()+" is written again at "+strings.Join(later, ", ")+": the wrapper forwards the variadic slice as one argument (or does not compile)")
+			}
+			return true
+		})
+	}
+	walk(gc.Decl.Body)
+	if n == 0 {
+		r.Errorf("R18.6: no statement appending \"...\" to a forwarded argument found in genContent")
+	}
+}
+
 func c18R5(prog *Prog, pk interface{}, fs map[string]*FuncInfo, r *Report) {
 	p := prog.Pkgs[0]
 	info := p.TypesInfo
@@ -337,14 +424,39 @@ func c18R5(prog *Prog, pk interface{}, fs map[string]*FuncInfo, r *Report) {
 			found++
 			exact := false
 			other := ""
+			quoted := map[*ast.CallExpr]bool{}
+			for _, s := range cc.Body {
+				ast.Inspect(s, func(m ast.Node) bool {
+					if call, ok := m.(*ast.CallExpr); ok && isCallTo(info, call, "strconv.Quote") && len(call.Args) == 1 {
+						if in, ok := unparen(call.Args[0]).(*ast.CallExpr); ok {
+							quoted[in] = true
+						}
+					}
+					return true
+				})
+			}
 			for _, s := range cc.Body {
 				ast.Inspect(s, func(m ast.Node) bool {
 					if call, ok := m.(*ast.CallExpr); ok {
 						if f, ok := calleeOf(info, call).(*types.Func); ok && f.Pkg() != nil && f.Pkg().Path() == "go/constant" {
+							// (constant.Value).String is exact for Int values (full decimal) and
+							// truncating for String values; StringVal is exact when re-quoted.
 							switch f.Name() {
 							case "ExactString":
 								exact = true
-							case "String", "Int64Val", "Uint64Val", "Float64Val", "StringVal":
+							case "String":
+								if c.Name() == "Int" {
+									exact = true
+								} else {
+									other = f.Name()
+								}
+							case "StringVal":
+								if c.Name() == "String" && quoted[call] {
+									exact = true
+								} else {
+									other = f.Name()
+								}
+							case "Int64Val", "Uint64Val", "Float64Val":
 								other = f.Name()
 							}
 						}
@@ -352,8 +464,8 @@ func c18R5(prog *Prog, pk interface{}, fs map[string]*FuncInfo, r *Report) {
 					return true
 				})
 			}
-			r.Check(exact && other == "", "R18.5", "fixConst/"+c.Name(), prog.pos(cc.Pos()), "printed with ExactString()",
-				"fixConst prints "+c.Name()+" constants through "+map[bool]string{true: other, false: "something other than ExactString"}[other != ""]+": long strings are truncated / large integers wrap, so the emitted literal is not the constant's value")
+			r.Check(exact && other == "", "R18.5", "fixConst/"+c.Name(), prog.pos(cc.Pos()), "printed exactly",
+				"fixConst prints "+c.Name()+" constants through "+map[bool]string{true: other, false: "something other than ExactString"}[other != ""]+": long strings are truncated / large integers wrap or lose precision, so the emitted literal is not the constant's value")
 		}
 		return true
 	})
